@@ -751,3 +751,78 @@ func ruleLoopVarClosureEscapesIPAM(c *Ctx, rule string) {
 func ruleLoopVarClosureEscapesPorts(c *Ctx, rule string) {
 	ruleLoopVarClosureEscapes(c, rule, pmPkg, galaxyPkg, "pkg/gc", polPkg)
 }
+
+// ---------- C06.R15 / C08.R15 ----------
+
+// ruleIntersectionSeededOnce — the node subnets common to all requested ranges (or to all held ips) are accumulated by
+// intersection, seeded by the first element only. Whether an element is the first one is decided by a flag or an index, never
+// by the accumulator being empty: an empty intersection is a result (no node serves all of them), and re-seeding it with the
+// next element's subnets makes filter offer nodes on which bind cannot serve the earlier ranges.
+func ruleIntersectionSeededOnce(c *Ctx, rule string) {
+	n := 0
+	for _, it := range []struct{ pkg, name string }{{fipPkg, "(*crdIpam).NodeSubnetsByIPRanges"}, {spPkg, "(*FloatingIPPlugin).getSubnet"}} {
+		fn := c.MustFn(rule, it.pkg, it.name)
+		if fn == nil {
+			continue
+		}
+		for _, f := range append([]*ssa.Function{fn}, helperFns(fn, 1)...) {
+			for _, ic := range callsLocal(f, "sets.String).Intersection") {
+				call, ok := ic.(*ssa.Call)
+				if !ok || loopHeaderOf(call) == nil {
+					continue
+				}
+				n++
+				var bad *ssa.If
+				for _, iff := range controllingIfs(call) {
+					bo, isBo := iff.Cond.(*ssa.BinOp)
+					if !isBo {
+						continue
+					}
+					lc, isCall := bo.X.(*ssa.Call)
+					if !isCall || !nameMatch(calleeName(lc), "sets.String).Len") {
+						continue
+					}
+					if k, isC := constIntVal(bo.Y); !isC || k != 0 {
+						continue
+					}
+					// the set whose emptiness is tested is the accumulator the intersection is taken of
+					if acc, recv := recvOf(lc), recvOf(call); acc == recv || sameAccessOrValue(acc, recv) {
+						bad = iff
+					}
+				}
+				c.ob(rule, fn, "the accumulated intersection is seeded by the first element only", call, bad == nil, "whether to seed or to intersect is not decided by `<accumulator>.Len() == 0`: an intersection that became empty stays empty for the remaining elements")
+				// seeding by `index == 0` is right only if no element is skipped before the test: with a skip path through the
+				// loop body, the first element that takes part may have another index and is then intersected with nothing
+				hdr := loopHeaderOf(call)
+				for _, iff := range controllingIfs(call) {
+					bo, isBo := iff.Cond.(*ssa.BinOp)
+					if !isBo || (bo.Op != token.EQL && bo.Op != token.NEQ) {
+						continue
+					}
+					if k, isC := constIntVal(bo.Y); !isC || k != 0 {
+						continue
+					}
+					if b, isB := bo.X.Type().Underlying().(*types.Basic); !isB || b.Info()&types.IsInteger == 0 {
+						continue
+					}
+					if _, isLen := bo.X.(*ssa.Call); isLen {
+						continue
+					}
+					skip := false
+					for k := range hdr.Succs {
+						if !naturalLoop(hdr)[hdr.Succs[k]] {
+							continue
+						}
+						if reachFromEdge(edge{hdr, k}, newCut().instr(iff)).has(hdr.Instrs[0]) {
+							skip = true
+						}
+					}
+					c.ob(rule, fn, "index-based seeding only where no element is skipped", iff, !skip, "the `index == 0` test that chooses between seeding and intersecting lies on every path through the loop body: the element with index 0 is the first one that takes part")
+				}
+			}
+		}
+	}
+	if n == 0 {
+		c.undecided(rule, nil, "intersection loops of the filter", nil, "no Intersection call inside a loop found in NodeSubnetsByIPRanges / getSubnet")
+	}
+}
